@@ -20,7 +20,13 @@ MENU_Q = [(0, 10), (-10, 10), (0, 0), (2, 10), (-10, -2), (0, float("inf"))]
 def params(tier):
     if tier == "quick":
         return dict(nm=3, nr=3, K=(-1, 0, 1), d=1, menu=MENU_Q, opt_dev=1)
-    return dict(nm=3, nr=4, K=(-1, 0, 1), d=1, menu=families.BOUNDS_MENU, opt_dev=2)
+    return dict(nm=3, nr=3, K=(-1, 0, 1), d=1, menu=families.BOUNDS_MENU, opt_dev=2)
+
+
+def thorough_passes():
+    return [(dict(nm=3, nr=3, K=(-1, 0, 1), d=1, menu=families.BOUNDS_MENU, opt_dev=2), None),
+            (dict(nm=3, nr=4, K=(-1, 0, 1), d=1, menu=[(0, 10), (-10, 10), (0, 0), (-10, 0), (2, 10), (-10, -2)], opt_dev=1),
+             lambda n: len(n) == 4)]
 
 
 def option_variants(ids, opt_dev):
@@ -188,11 +194,15 @@ def replay(case):
 def explore(ctx):
     P = params(ctx.tier)
     n_self = exactlp.selftest(limit=3000)
-    nets = families.networks(P["nm"], P["nr"], P["K"])
-    off = ctx.seed % len(nets)
-    nets = nets[off:] + nets[:off]
-    chunk = 2 if ctx.tier == "quick" else 1
-    payloads = [{"params": P, "nets": nets[i:i + chunk]} for i in range(0, len(nets), chunk)]
+    passes = [(P, None)] if ctx.tier == "quick" else thorough_passes()
+    payloads, nets = [], []
+    for PP, flt in passes:
+        ns = [n for n in families.networks(PP["nm"], PP["nr"], PP["K"]) if flt is None or flt(n)]
+        off = ctx.seed % len(ns)
+        ns = ns[off:] + ns[:off]
+        nets += ns
+        chunk = 2 if ctx.tier == "quick" else 1
+        payloads += [{"params": PP, "nets": ns[i:i + chunk]} for i in range(0, len(ns), chunk)]
     stats = {}
     with ctx.pool(timeout=3000) as pool:
         for i, status, res in pool.imap(payloads):
